@@ -10,7 +10,7 @@ import warnings
 import torch
 
 import c20_lib as L
-from common import err_class, time_limit
+from common import Infra, err_class, time_limit
 
 warnings.filterwarnings("ignore")
 
@@ -98,6 +98,8 @@ def leaves(td):
 
 
 def run_extended(run, rng):
+    run_nontensor(run, rng, 40 if run.tier == "quick" else 250)
+    run_nested_containers(run, rng, 1000)
     from tensordict import TensorDict, lazy_stack
     from tensordict.nn import TensorDictParams
     n = 60 if run.tier == "quick" else 400
@@ -172,13 +174,15 @@ def run_extended(run, rng):
         if default:
             kw["default"] = None
         try:
-            with time_limit(30):
+            with time_limit(240):
                 with torch.no_grad():
                     if named:
                         res = cont.named_apply(fn, *others, nested_keys=nested_keys, **kw)
                     else:
                         res = cont.apply(fn, *others, **kw)
             err = None
+        except TimeoutError as e:
+            raise Infra(f"implementation call timed out: {e}")
         except Exception as e:  # noqa: BLE001
             res, err = None, e
         fp = f"{kind}:{'named' if named else 'apply'}:{'inplace' if inplace else 'new'}"
@@ -218,6 +222,149 @@ def run_extended(run, rng):
                 run.oracle_fail(site, case, "in-place apply on a sub-tensordict did not write through / touched other rows", fp + ":write-through")
                 continue
         run.oracle_ok(site)
+
+
+def run_nontensor(run, rng, n):
+    """non-tensor leaves are kept as they are, in every filter_empty mode, sequential or threaded"""
+    from tensordict import NonTensorData, TensorDict
+    site = "container"
+    for it in range(n):
+        ids = itertools.count(1)
+        batch = (2,)
+        s = L.gen_struct(rng, 0, ids, allow_empty=False)
+        vals = tensors(s, batch)
+        td = td_from(vals, batch)
+        nts = {}
+
+        def sprinkle(node, d, pre=()):
+            if rng.random() < 0.7:
+                key = "nt" + str(len(nts))
+                node[key] = NonTensorData(f"v{len(nts)}", batch_size=list(batch))
+                nts[pre + (key,)] = f"v{len(nts)}"
+            for k, v in d.items():
+                if isinstance(v, dict):
+                    sprinkle(node[k], v, pre + (k,))
+        sprinkle(td, s)
+        fe = rng.choice([None, True, False])
+        nt = rng.choice([0, 0, 2])
+        drop_mod = rng.choice([0, 3, 1])      # 1: the function returns None for every tensor
+        fn = make_fn(False, drop_mod)
+        wrapped = lambda x, _f=fn: _f(x) if isinstance(x, torch.Tensor) else x  # noqa: E731
+        case = {"container": "nontensor_leaves", "self": s, "nontensor": [".".join(k) for k in nts], "filter_empty": fe, "num_threads": nt, "drop_mod": drop_mod}
+        run.case(("extended", "nontensor", str(s), str(sorted(nts)), str(fe), nt, drop_mod))
+        run.count("container.kind", "nontensor_leaves")
+        try:
+            with time_limit(240):
+                res = td._fast_apply(wrapped, filter_empty=fe, num_threads=nt) if nt else td.apply(wrapped, filter_empty=fe)
+            err = None
+        except TimeoutError as e:
+            raise Infra(f"implementation call timed out: {e}")
+        except Exception as e:  # noqa: BLE001
+            res, err = None, e
+        fp = f"nontensor:t{nt}:fe={fe}"
+        if err is not None:
+            run.oracle_fail(site, case, f"raised {type(err).__name__}: {str(err)[:150]}", fp + f":raises:{err_class(err)}")
+            continue
+        want = flat(ref(vals, [], False, False, False, fn))
+        if res is None:
+            if want or nts:
+                run.oracle_fail(site, case, "returned None although tensors / non-tensor data should be in the result", fp + ":none-result")
+            else:
+                run.oracle_ok(site)
+            continue
+        got = leaves(res)
+        bad = [p for p in want if p not in got or not torch.equal(got[p], want[p])]
+        lost = []
+        for path, data in nts.items():
+            try:
+                v = res[path if len(path) > 1 else path[0]]
+                if getattr(v, "data", v) != data:
+                    lost.append(path)
+            except Exception:  # noqa: BLE001
+                lost.append(path)
+        if bad or lost:
+            run.oracle_fail(site, case, f"tensor leaves differ at {bad[:3]}; non-tensor entries lost or changed: {lost[:3]}", fp + ":values")
+        else:
+            run.oracle_ok(site)
+
+
+def run_nested_containers(run, rng, n):
+    """a lazy stack / tensorclass / sub-tensordict NESTED inside a plain TensorDict: named_apply must hand the function the
+    exact key (last key, or the full path with nested_keys=True) of every leaf under every metadata override"""
+    from tensordict import TensorDict, lazy_stack, tensorclass
+    site = "container"
+
+    @tensorclass
+    class C20Inner:
+        x: torch.Tensor
+        deep: TensorDict
+
+    def build(kind):
+        x0, x1 = torch.arange(3.0), torch.arange(3.0) + 10
+        if kind == "lazy_stack":
+            inner = lazy_stack([TensorDict({"x": x0.clone(), "deep": {"y": x0 + 100}}, [3]), TensorDict({"x": x1.clone(), "deep": {"y": x1 + 100}}, [3])], 0)
+        elif kind == "tensorclass":
+            inner = C20Inner(x=torch.stack([x0, x1]), deep=TensorDict({"y": torch.stack([x0, x1]) + 100}, [2, 3]), batch_size=[2, 3])
+        elif kind == "sub_tensordict":
+            parent = TensorDict({"x": torch.stack([x0, x1, x0, x1]), "deep": {"y": torch.stack([x0, x1, x0, x1]) + 100}}, [4, 3])
+            inner = parent._get_sub_tensordict(slice(0, 2))
+        else:
+            inner = TensorDict({"x": torch.stack([x0, x1]), "deep": {"y": torch.stack([x0, x1]) + 100}}, [2, 3])
+        td = TensorDict({"a": torch.arange(2.0), "nest": {"inner": inner}}, [2])
+        return td
+
+    combos = [(k, nk, bs, nm, dv) for k in ("lazy_stack", "tensorclass", "sub_tensordict", "plain")
+              for nk in (True, False) for bs in (None, [2]) for nm in ("nodef", None, ["p"]) for dv in ("nodef", None, "cpu")
+              if not (isinstance(nm, list) and bs is None)]     # `names=` is documented for a modified batch_size only
+    if n < len(combos):
+        combos = rng.sample(combos, n)
+    for kind, nested_keys, bs, nm, dv in combos:
+        td = build(kind)
+        seen = []
+
+        def fn(key, value):
+            seen.append(key if isinstance(key, str) else tuple(key))
+            return value + 1
+        kw = {}
+        if bs is not None:
+            kw["batch_size"] = bs
+        if nm != "nodef":
+            kw["names"] = nm
+        if dv != "nodef":
+            kw["device"] = dv
+        case = {"container": f"nested {kind}", "nested_keys": nested_keys, **{k: str(v) for k, v in kw.items()}}
+        run.case(("extended", "nested_container", kind, nested_keys, str(bs), str(nm), str(dv)))
+        run.count("container.kind", f"nested:{kind}")
+        fp = f"nested:{kind}:nested_keys={nested_keys}:bs={'y' if bs else 'n'}:names={nm if nm in ('nodef', None) else 'list'}:device={dv}"
+        try:
+            with time_limit(240):
+                res = td.named_apply(fn, nested_keys=nested_keys, **kw)
+            err = None
+        except TimeoutError as e:
+            raise Infra(f"implementation call timed out: {e}")
+        except Exception as e:  # noqa: BLE001
+            res, err = None, e
+        if err is not None:
+            run.oracle_fail(site, case, f"raised {type(err).__name__}: {str(err)[:150]}", fp + f":raises:{err_class(err)}")
+            continue
+        if nested_keys:
+            want = {"a", ("nest", "inner", "x"), ("nest", "inner", "deep", "y")}
+        else:
+            want = {"a", "x", "y"}
+        if set(seen) != want:
+            run.oracle_fail(site, case, f"the function received the keys {sorted(map(str, set(seen)))}, expected {sorted(map(str, want))}", fp + ":keys")
+            continue
+        try:
+            got = leaves(res.to_tensordict() if hasattr(res, "to_tensordict") else res)
+            src = leaves(build(kind).to_tensordict())
+            bad = [p for p in src if p not in got or not torch.equal(got[p], src[p] + 1)]
+        except Exception as e:  # noqa: BLE001
+            run.oracle_fail(site, case, f"result unreadable: {e}", fp + ":unreadable")
+            continue
+        if bad:
+            run.oracle_fail(site, case, f"result differs from fn(value) at {bad[:3]}", fp + ":values")
+        else:
+            run.oracle_ok(site)
 
 
 def _to_float(d):
